@@ -1,7 +1,7 @@
 ---------------------------- MODULE AlignmentFiles ----------------------------
 (***************************************************************************)
-(* Growth beyond the listed properties: the two plain alignment files      *)
-(* (parangonada csv, ASAP tsv).  An alignment is a sequence of entries -   *)
+(* Growth beyond the listed properties: the plain alignment files          *)
+(* (parangonada csv, ASAP tsv, Nakamura corresp).  An alignment is a sequence of entries -   *)
 (* match(score id, performance id), deletion(score id), insertion          *)
 (* (performance id) - as in MatchFile.tla.  Each format writes one row of  *)
 (* fields per entry; reading a row gives an entry back.  The machine       *)
@@ -11,7 +11,7 @@
 (***************************************************************************)
 EXTENDS Integers, Sequences, FiniteSets
 
-Reserved == {"undefined", "insertion", "deletion"}
+Reserved == {"undefined", "insertion", "deletion", "*"}
 
 (* parangonada: idx, matchtype (0 match, 1 deletion, 2 insertion), partid, ppartid *)
 PRow(k, e) == CASE e.label = "match" -> <<k - 1, 0, e.sid, e.pid>>
@@ -28,22 +28,30 @@ AEntry(r) == IF r[1] = "insertion" THEN [label |-> "insertion", pid |-> r[2]]
              ELSE IF r[2] = "deletion" THEN [label |-> "deletion", sid |-> r[1]]
              ELSE [label |-> "match", sid |-> r[1], pid |-> r[2]]
 
+(* Nakamura corresp (read only): performed-note id and score-note id, "*" where there is none *)
+CRow(e) == CASE e.label = "match" -> <<e.pid, e.sid>>
+             [] e.label = "deletion" -> <<"*", e.sid>>
+             [] e.label = "insertion" -> <<e.pid, "*">>
+CEntry(r) == IF r[1] = "*" THEN [label |-> "deletion", sid |-> r[2]]
+             ELSE IF r[2] = "*" THEN [label |-> "insertion", pid |-> r[1]]
+             ELSE [label |-> "match", sid |-> r[2], pid |-> r[1]]
+
 VARIABLES al,      \* the alignment
           phase,   \* "write", "read", "done"
           k,       \* next entry / row
-          prows, arows,     \* rows written so far
-          pback, aback      \* entries read back so far
-avars == <<al, phase, k, prows, arows, pback, aback>>
+          prows, arows, crows,     \* rows written so far
+          pback, aback, cback      \* entries read back so far
+avars == <<al, phase, k, prows, arows, crows, pback, aback, cback>>
 
-FilesInit(x) == al = x /\ phase = "write" /\ k = 1 /\ prows = <<>> /\ arows = <<>> /\ pback = <<>> /\ aback = <<>>
+FilesInit(x) == al = x /\ phase = "write" /\ k = 1 /\ prows = <<>> /\ arows = <<>> /\ crows = <<>> /\ pback = <<>> /\ aback = <<>> /\ cback = <<>>
 Write == /\ phase = "write" /\ k <= Len(al)
-         /\ prows' = Append(prows, PRow(k, al[k])) /\ arows' = Append(arows, ARow(al[k]))
-         /\ k' = k + 1 /\ UNCHANGED <<al, phase, pback, aback>>
-Close == phase = "write" /\ k > Len(al) /\ phase' = "read" /\ k' = 1 /\ UNCHANGED <<al, prows, arows, pback, aback>>
+         /\ prows' = Append(prows, PRow(k, al[k])) /\ arows' = Append(arows, ARow(al[k])) /\ crows' = Append(crows, CRow(al[k]))
+         /\ k' = k + 1 /\ UNCHANGED <<al, phase, pback, aback, cback>>
+Close == phase = "write" /\ k > Len(al) /\ phase' = "read" /\ k' = 1 /\ UNCHANGED <<al, prows, arows, crows, pback, aback, cback>>
 Read == /\ phase = "read" /\ k <= Len(prows)
-        /\ pback' = Append(pback, PEntry(prows[k])) /\ aback' = Append(aback, AEntry(arows[k]))
-        /\ k' = k + 1 /\ UNCHANGED <<al, phase, prows, arows>>
-Finish == phase = "read" /\ k > Len(prows) /\ phase' = "done" /\ UNCHANGED <<al, k, prows, arows, pback, aback>>
+        /\ pback' = Append(pback, PEntry(prows[k])) /\ aback' = Append(aback, AEntry(arows[k])) /\ cback' = Append(cback, CEntry(crows[k]))
+        /\ k' = k + 1 /\ UNCHANGED <<al, phase, prows, arows, crows>>
+Finish == phase = "read" /\ k > Len(prows) /\ phase' = "done" /\ UNCHANGED <<al, k, prows, arows, crows, pback, aback, cback>>
 FilesNext == Write \/ Close \/ Read \/ Finish
 Done == phase = "done"
 
@@ -51,5 +59,6 @@ OneRowPerEntry == (phase # "write") => Len(prows) = Len(al) /\ Len(arows) = Len(
 RowsNumbered == \A j \in 1..Len(prows) : prows[j][1] = j - 1
 ReadBackIsPrefix == /\ pback = SubSeq(al, 1, Len(pback))
                     /\ aback = SubSeq(al, 1, Len(aback))
-RoundTrip == Done => pback = al /\ aback = al
+                    /\ cback = SubSeq(al, 1, Len(cback))
+RoundTrip == Done => pback = al /\ aback = al /\ cback = al
 =============================================================================
